@@ -83,7 +83,20 @@ func TestWorker(t *testing.T) {
 		start, _ := strconv.ParseInt(env("VERIF_SEED_START", "1"), 10, 64)
 		count, _ := strconv.Atoi(env("VERIF_SEED_COUNT", "1"))
 		keepPlan := env("VERIF_KEEP_PLANS", "") != ""
+		// a property may be served by a second harness: "name:k" = seeds divisible by k run on that harness
+		var alt core.Harness
+		altEvery := int64(0)
+		if a := env("VERIF_ALT_HARNESS", ""); a != "" {
+			parts := strings.SplitN(a, ":", 2)
+			alt = core.Get(parts[0])
+			if alt == nil || len(parts) != 2 {
+				t.Fatalf("bad VERIF_ALT_HARNESS %q", a)
+			}
+			altEvery, _ = strconv.ParseInt(parts[1], 10, 64)
+			warmUp(t, alt, prop)
+		}
 		warmUp(t, h, prop)
+		primary := h
 		// the worker stops by itself when the supervisor's budget is over or when the goroutines and heaps of
 		// finished runs (parked for good, never collected) have grown too large; it says where it stopped and the
 		// supervisor gives the rest of the seeds to a fresh process. Read between runs only: no run sees it.
@@ -107,6 +120,10 @@ func TestWorker(t *testing.T) {
 			seed := start + int64(i)
 			if i > 0 && stop(seed) {
 				break
+			}
+			h := primary
+			if alt != nil && altEvery > 0 && seed%altEvery == 0 {
+				h = alt
 			}
 			plan := core.GenPlan(h, prop, seed, tier)
 			res := core.Execute(t, h, plan)
